@@ -70,6 +70,63 @@ CLAIMED = {
              "encoding the payload) gives exactly the original bytes; so does rebuilding from the decoded address value when a "
              "family is specified. For all inputs. Tie: parse-then-rebuild (four ways) on 140k inputs.",
         ref="7-C13", technique="Coq proof (encode o decode = identity on accepted headers) + differential correspondence on parse-then-rebuild"),
+    "C01": dict(
+        text="Theorems C01_bytes/C01_str/C01_reject and C01_ipv4/ipv6/port_grammar (Props/C01.v): for EVERY byte string x, "
+             "the model's byte entry point accepts x with value hd iff the independent split-based grammar of "
+             "Spec/V1Grammar.v accepts x with value hd (line <= 107 bytes ended by the first CR + LF, PROXY UNKNOWN [SP text] "
+             "or PROXY TCP4/TCP6 + four single-space-separated fields, dotted-quad / RFC 4291 text, plain decimal ports; "
+             "decoded values in written order; header text = line with CRLF); same for &str on character boundaries. The "
+             "models of the std parsers are PROVED equal to the grammar's recognisers (no open premise). Tie: 209k quick / "
+             "3.8M thorough inputs through all four text entry points, incl. slot-substitution and token-enumeration streams.",
+        ref="7-C01", technique="Coq proof (parser model <-> declarative grammar, for all inputs) + differential correspondence with extracted model and grammar oracle"),
+    "C18": dict(
+        text="Theorems C18_bytes/C18_str/C18_stable/C18_stable_long/C18_core (Props/C18.v): for every input containing its "
+             "first CR followed by one more byte, or 107 CR-free bytes, the v1 result is complete, and appending bytes "
+             "leaves it identical (resp. a terminal error). For all inputs, by case analysis of every site that returns an "
+             "incomplete error. Tie: 295k inputs with extensions.",
+        ref="7-C18", technique="Coq proof (terminated window => no incomplete error) + differential correspondence on classification"),
+    "C04": dict(
+        text="Theorems C04_v1/C04_v2/C04_auto (Props/C04.v): an accepted input followed by ANY bytes, and the reported header "
+             "bytes on their own, are accepted with the identical result; the header is the input through the CRLF resp. "
+             "the first 16+length bytes. For all inputs and all trailers. Tie: 3M cases (inputs x 11 trailers x 3 entry points).",
+        ref="7-C04", technique="Coq proof (window lemma / closed form of p2) + metamorphic differential check with trailers"),
+    "C05": dict(
+        text="Theorems C05_v1/C05_v2/C05_v2_auto/C05_flags (Props/C05.v): every proper prefix of every accepted US-ASCII v1 "
+             "line is incomplete through the byte, &str and auto entry points; every proper prefix of every accepted v2 header "
+             "yields exactly Incomplete(k) / Partial(k-16, length); is_complete = !is_incomplete; Ok is never incomplete. "
+             "Case analysis over every cut position of every line shape, no bound. Tie: 8M prefix cases per quick run.",
+        ref="7-C05", technique="Coq proof (every cut point of every accepted shape) + exhaustive-prefix differential check"),
+    "C06": dict(
+        text="Theorems C06/C06_accepts/C06_exclusive/C06_incomplete/C06_v2_first/C06_possible (Props/C06.v): the auto-detecting "
+             "parser returns the v2 result when it is a success or incomplete and the v1 result otherwise, tagged accordingly; "
+             "accepts iff one of the two accepts, never both; `still a possible v2 header` (Spec) <=> v2 accepts or is incomplete. "
+             "For all inputs. Tie: 1.1M inputs incl. every signature prefix and mixed v1/v2 inputs.",
+        ref="7-C06", technique="Coq proof (HeaderResult::parse in closed form) + impl-vs-impl and spec-side differential check"),
+    "C08": dict(
+        text="Theorems C08_round/C08_inj/C08_header (Props/C08.v): for EVERY address value (all IPv4/IPv6 pairs, all ports) the "
+             "formatted text is a grammar-well-formed line <= 107 bytes that the byte, &str and both FromStr entry points parse "
+             "back to the identical value; hence formatting is injective; a parsed header prints its own text. Rests on the "
+             "proved round trips of the std models (IPv6: Proofs/StdIp6.v). Tie: 33k values incl. all 256 zero-masks.",
+        ref="7-C08", technique="Coq proof (parse o format = id for all address values) + differential correspondence on format-then-parse"),
+    "C12": dict(
+        text="18 theorems (Props/C12.v): for every complete line of six separator-free fields + CR + one byte, a wrong keyword / "
+             "protocol / unparsable source or destination address / bad source or destination port / byte after CR != LF gives "
+             "exactly InvalidPrefix / InvalidProtocol / Invalid{Source,Destination}Address / Invalid{Source,Destination}Port / "
+             "InvalidSuffix (first invalid field wins), passed through terminally by the byte entry point; > 107 bytes and invalid "
+             "UTF-8 likewise; v2: signature, version, command, family, transport nibble (value in place), short length; terminal "
+             "under auto-detection. Tie: 380k single-element mutations + all 65 536 control pairs.",
+        ref="7-C12", technique="Coq proof (closed form of both parsers on six-field lines / control bytes) + mutation-directed differential check"),
+    "C15": dict(
+        text="Theorem C15 (Props/C15.v): for every accepted v1 header, protocol() is the keyword of the decoded addresses and "
+             "PROXY SP protocol [SP] addresses_str CRLF re-assembles to the header text = to_string(). For all accepted inputs. "
+             "Tie: 43k inputs incl. UNKNOWN with empty, multi-space, non-ASCII, 107-byte text; borrowed and owned.",
+        ref="7-C15", technique="Coq proof (views of every accepted shape) + differential correspondence on accessor values"),
+    "C16": dict(
+        text="Theorems C16_agree/C16_split/C16_owned (Props/C16.v): for every valid-UTF-8 string, bytes / &str / both FromStr "
+             "entry points give the same outcome when the examined line ends on a character boundary and all fail otherwise "
+             "(uses the proved UTF-8 prefix/boundary lemma); owned copies equal originals. PARTIAL: survival of owned copies "
+             "after the buffer is overwritten or dropped is observed on the implementation, not proved. Tie: 288k inputs.",
+        ref="7-C16", technique="Coq proof (entry points coincide on char boundaries) + impl-vs-impl differential check; owned-copy independence by observation"),
 }
 
 NOT_YET = "not yet claimed: model, theorems and correspondence stream for this property are still being built (DESIGN 10.4)"
